@@ -31,6 +31,7 @@ func init() {
 			"C06.R4 gate dominance in the publishing function",
 			"C06.R5 universal has-writer guard loop dominates the installers",
 			"C06.R6 who-may-write Active / Paused / pause flag",
+			"C06.R8 the activity predicate of the writing state returns the Active field unaltered (it guards record-length changes and side files as 'files are open')",
 			"C06.R7 new numbered directory: success return dominated by os.IsNotExist(true) and MkdirAll; the pattern flows to all file names and to the reported state",
 		},
 		Run: runC06,
@@ -65,6 +66,7 @@ func runC06(p *Prog, r *Report) {
 	r.MinInstances["C06.R4"] = 3
 	r.MinInstances["C06.R5"] = 3
 	r.MinInstances["C06.R6"] = 3
+	r.MinInstances["C06.R8"] = 1
 	c.ruleR1()
 	c.ruleR2()
 	c.ruleR3()
@@ -72,6 +74,7 @@ func runC06(p *Prog, r *Report) {
 	c.ruleR5()
 	c.ruleR6()
 	c.ruleR7()
+	c.ruleR8()
 }
 
 func (c *c06ctx) anchors() bool {
@@ -904,5 +907,89 @@ func (c *c06ctx) ruleR7() {
 		r.Check(okAll && cnt >= len(c.handles), "C06.R7", FuncName(fn)+" writes into a new directory", p.InstrPos(mkCall),
 			fmt.Sprintf("%d file names are formatted from the pattern of the newly created directory", cnt),
 			"a writer's file name is not derived from the pattern returned for the newly created run directory")
+	}
+}
+
+// ---- R8: the activity predicate is the reported Active flag itself ---------------------------
+
+// ruleR8: every bool-returning method without parameters of the writing-state type (and of the
+// source types, which forward to it) whose result depends on the Active field returns exactly
+// that field.  Code outside write control relies on it as "files are open": the guard that
+// refuses a record-length change while writing, and the side-file writers.  Since R2c/R2d tie
+// Active to the installed file handles, a weaker predicate (Active && !Paused) lets the record
+// lengths change under open files whose headers state the old lengths.
+func (c *c06ctx) ruleR8() {
+	p, r := c.p, c.r
+	n := 0
+	for _, fn := range p.LibFuncs() {
+		if fn.Signature.Recv() == nil || typeName(fn.Signature.Recv().Type()) != "WritingState" {
+			continue
+		}
+		if fn.Signature.Params().Len() != 0 || fn.Signature.Results().Len() != 1 {
+			continue
+		}
+		if b, ok := fn.Signature.Results().At(0).Type().Underlying().(*types.Basic); !ok || b.Kind() != types.Bool {
+			continue
+		}
+		loadsActive := false
+		Instrs(fn, func(in ssa.Instruction) {
+			if u, ok := in.(*ssa.UnOp); ok && u.Op == token.MUL {
+				if o, f, _, isF := FieldOf(u); isF && o == "WritingState" && f == "Active" {
+					loadsActive = true
+				}
+			}
+		})
+		if !loadsActive {
+			continue
+		}
+		n++
+		r.Fn(FuncName(fn))
+		// every value that can be returned: direct results, or stores into the spilled result cell
+		var vals []ssa.Value
+		Instrs(fn, func(in ssa.Instruction) {
+			ret, ok := in.(*ssa.Return)
+			if !ok {
+				return
+			}
+			v := ret.Results[0]
+			if u, isU := v.(*ssa.UnOp); isU && u.Op == token.MUL {
+				if a, isA := u.X.(*ssa.Alloc); isA {
+					for _, ref := range *a.Referrers() {
+						if st, isSt := ref.(*ssa.Store); isSt && st.Addr == ssa.Value(a) {
+							vals = append(vals, st.Val)
+						}
+					}
+					return
+				}
+			}
+			vals = append(vals, v)
+		})
+		pure := len(vals) > 0
+		var isActiveLoad func(v ssa.Value, d int) bool
+		isActiveLoad = func(v ssa.Value, d int) bool {
+			if d > 4 {
+				return false
+			}
+			if ph, ok := v.(*ssa.Phi); ok {
+				for _, e := range ph.Edges {
+					if !isActiveLoad(e, d+1) {
+						return false
+					}
+				}
+				return true
+			}
+			o, f, _, isF := FieldOf(v)
+			return isF && o == "WritingState" && f == "Active"
+		}
+		for _, v := range vals {
+			if !isActiveLoad(v, 0) {
+				pure = false
+			}
+		}
+		r.Check(pure, "C06.R8", FuncName(fn)+" returns the Active flag unaltered", p.Pos(fn.Pos()), "result is the Active field on every path",
+			"the predicate combines Active with something else: while files are open (Active) it can answer false, so the guard that refuses a change of record length during writing lets it through, and records of the new lengths are appended to files whose headers state the old ones")
+	}
+	if n == 0 {
+		r.Bad("C06.R8", "activity predicate", "-", "no predicate of the writing state reads the Active flag")
 	}
 }
